@@ -192,13 +192,20 @@ impl<'a> Tr<'a> {
                     None => {
                         // `x.f(..)` for a `&mut` parameter / `self`: a method that changes its receiver
                         if let Some((b, segs)) = self.as_place(&m.receiver) {
-                            if segs.is_empty() && (self.is_state_var(&b) || matches!(self.lookup(env, &b), Some(Var { kind: Kind::MutLocal, .. }))) {
+                            if segs.is_empty() && (self.is_state_var(&b) || matches!(self.lookup(env, &b), Some(Var { kind: Kind::MutLocal | Kind::ElemMut | Kind::MutBorrow(_), .. }))) {
                                 self.method_value(m, env)?;
                                 if !self.effect_seen {
                                     return self.unsupported(sp, "call without effect as a statement:");
                                 }
                                 return Ok(vec![]);
                             }
+                        }
+                        if matches!(&*m.receiver, Expr::MethodCall(_)) {
+                            self.method_value(m, env)?;
+                            if !self.effect_seen {
+                                return self.unsupported(sp, "call without effect as a statement:");
+                            }
+                            return Ok(vec![]);
                         }
                         return self.unsupported(sp, "method call as a statement (only on a Vec field `self.f`)");
                     }
@@ -208,7 +215,7 @@ impl<'a> Tr<'a> {
                 }
                 let elem = match &pl.ty {
                     Ty::Vec(t) => (**t).clone(),
-                    Ty::Named { .. } => {
+                    Ty::Named { .. } | Ty::Map { .. } => {
                         // a method that changes its receiver, called for its effect (the value is dropped)
                         self.method_value(m, env)?;
                         if !self.effect_seen {
@@ -292,7 +299,7 @@ impl<'a> Tr<'a> {
             }
             match self.lookup(env, &x) {
                 Some(v) => {
-                    if recv_only && !matches!(v.kind, Kind::MutLocal) {
+                    if recv_only && !matches!(v.kind, Kind::MutLocal | Kind::ElemMut) {
                         continue;
                     }
                     if lets.contains(&x) {
@@ -845,6 +852,19 @@ impl<'a> Tr<'a> {
                 }
             }
         }
+        // `for (k, v) in &mut C` for a container given by --iter-mut
+        if let Expr::Reference(r) = src {
+            if r.mutability.is_some() {
+                if let Some(pl) = self.place(&r.expr, env)? {
+                    if let Ty::Map { rust, val, .. } = &pl.ty {
+                        if let Some((_, fmap, fmap_s)) = self.opts.iter_muts.iter().find(|(n, _, _)| n == rust).cloned() {
+                            let val = (**val).clone();
+                            return self.for_container_mut(fl, &r.expr, val, &fmap, &fmap_s, env, mode);
+                        }
+                    }
+                }
+            }
+        }
         // the source: (Lean list, element type, the place to store the mapped list into — for the `&mut` form)
         enum Store {
             Place(PlaceInfo),
@@ -998,6 +1018,87 @@ impl<'a> Tr<'a> {
         Ok(vec![Chunk::LetState(pat, lines)])
     }
 
+    /// `for (k, v) in &mut C { body }` for a container given by `--iter-mut C=map,mapState`: the body may change `v` and
+    /// the state of the function other than `self` (which is borrowed by the loop):
+    /// `C := map C (fun k v => body; v)`, or `(C, state) := mapState C state (fun k v state => body; (v, state))`
+    #[allow(clippy::too_many_arguments)]
+    fn for_container_mut(&mut self, fl: &syn::ExprForLoop, c: &Expr, val: Ty, fmap: &str, fmap_s: &str, env: &Env, mode: Mode) -> Res<Vec<Chunk>> {
+        let sp = fl.span();
+        let pl = self.writable(c, env)?;
+        let (kp, vp) = match &*fl.pat {
+            Pat::Tuple(t) if t.elems.len() == 2 => (&t.elems[0], &t.elems[1]),
+            _ => return self.unsupported(sp, "loop pattern (only `(k, v)` over this container)"),
+        };
+        let mut env2 = env.clone();
+        let k = match kp {
+            Pat::Wild(_) => "_".to_string(),
+            Pat::Ident(i) if i.by_ref.is_none() && i.mutability.is_none() && i.subpat.is_none() => {
+                env2.push(var(i.ident.to_string(), Ty::usize()));
+                lean_ident(&i.ident.to_string())
+            }
+            _ => return self.unsupported(sp, "loop pattern (only `(k, v)` over this container)"),
+        };
+        let v = match vp {
+            Pat::Ident(i) if i.by_ref.is_none() && i.mutability.is_none() && i.subpat.is_none() => i.ident.to_string(),
+            _ => return self.unsupported(sp, "loop pattern (only `(k, v)` over this container)"),
+        };
+        env2.push(Var { name: v.clone(), ty: val, kind: Kind::ElemMut });
+        // the state besides the element: the `&mut` parameters and the outer locals the body changes
+        let mut assigned = vec![];
+        let mut lets = vec![];
+        assigned_in_stmts(&fl.body.stmts, &mut assigned, &mut lets);
+        let mut st: Vec<String> = self.mut_params.clone();
+        let base: Vec<String> = st.iter().cloned().chain(std::iter::once(v.clone())).collect();
+        let more = self.changed_outer(assigned, &lets, env, &base, sp)?;
+        st.extend(more);
+        let body_panics = {
+            use quote::ToTokens;
+            let mut ids = BTreeSet::new();
+            collect_idents(fl.body.to_token_stream(), &mut ids);
+            tokens_have_panic(fl.body.to_token_stream()) || self.prims.iter().any(|p| p.panics && ids.contains(&p.name)) || self.sigs.iter().any(|s| s.has_panic && ids.contains(&s.name))
+        };
+        if body_panics {
+            return self.unsupported(sp, "loop over elements whose body can panic:");
+        }
+        let mut vars = vec![v.clone()];
+        vars.extend(st.iter().cloned());
+        let saved = (self.loop_ctx.take(), std::mem::replace(&mut self.ret, Ty::Unit), self.has_panic, self.match_depth, std::mem::take(&mut self.state), self.self_mut);
+        self.loop_ctx = Some((vars.clone(), false));
+        self.has_panic = false;
+        self.match_depth = 0;
+        self.self_mut = false; // `self` is borrowed by the loop
+        let pre_outer = self.take_pre();
+        let body = self.block(&fl.body.stmts, &env2, Mode::Tail, fl.body.span());
+        self.pre = pre_outer;
+        self.loop_ctx = saved.0;
+        self.ret = saved.1;
+        self.has_panic = saved.2;
+        self.match_depth = saved.3;
+        self.state = saved.4;
+        self.self_mut = saved.5;
+        let body = body?;
+        let _ = mode;
+        let tmp = self.fresh("m");
+        let (head, pat) = if st.is_empty() {
+            (format!("{fmap} {} (fun {k} {} =>", pl.read(), lean_ident(&v)), tmp.clone())
+        } else {
+            self.tuple_state = true;
+            let sp_ = pat_of(&st);
+            (format!("{fmap_s} {} {sp_} (fun {k} {} {sp_} =>", pl.read(), lean_ident(&v)), format!("({tmp}, {})", st.iter().map(|x| lean_ident(x)).collect::<Vec<_>>().join(", ")))
+        };
+        let mut lines = vec![format!("{head}  -- L{}: `for {} in {}`", line_of(sp), self.src_text(fl.pat.span()), self.src_text(fl.expr.span()))];
+        lines.extend(indent(indent(body)));
+        let last = lines.len() - 1;
+        lines[last] = match lines[last].find("  -- ") {
+            Some(cm) => format!("{}){}", &lines[last][..cm], &lines[last][cm..]),
+            None => format!("{})", lines[last]),
+        };
+        let mut out = vec![Chunk::LetState(pat, lines)];
+        let lets = self.store(&pl, &tmp, env);
+        out.extend(Self::lets_to_chunks(lets, line_of(sp)));
+        Ok(out)
+    }
+
     fn for_zip_mut(&mut self, fl: &syn::ExprForLoop, p: &Expr, q: &Expr, env: &Env) -> Res<Vec<Chunk>> {
         let sp = fl.span();
         let pl = self.writable(p, env)?;
@@ -1139,7 +1240,7 @@ impl<'a> Tr<'a> {
                     // if let Some(x) = e { A } else { B }
                     let bound = match self.some_pattern(&l.pat) {
                         Some(b) => b,
-                        None => return self.unsupported(l.span(), "`if let` pattern (only `Some(x)`)"),
+                        None => return self.if_let_general(i, l, e, else_stmts, else_if, env, mode, rest),
                     };
                     let (s, st) = self.expr(&l.expr, env)?;
                     let inner = match st {
@@ -1197,6 +1298,55 @@ impl<'a> Tr<'a> {
             Expr::Match(m) => self.match_stmt(m, e, env, mode, rest),
             _ => self.unsupported(e.span(), "control statement"),
         }
+    }
+
+    /// `if let PAT = e { A } else { B }` for a general pattern: `match e with | PAT => A | _ => B`; a tuple scrutinee
+    /// `(e1, e2)` is matched component-wise
+    #[allow(clippy::too_many_arguments)]
+    fn if_let_general(&mut self, i: &syn::ExprIf, l: &syn::ExprLet, e: &Expr, else_stmts: Option<Vec<Stmt>>, else_if: Option<&Expr>, env: &Env, mode: Mode, rest: &[Stmt]) -> Res<Vec<String>> {
+        let sp = l.span();
+        let (scruts, pats): (Vec<&Expr>, Vec<&Pat>) = match (&*l.expr, &*l.pat) {
+            (Expr::Tuple(t), Pat::Tuple(p)) if t.elems.len() == p.elems.len() => (t.elems.iter().collect(), p.elems.iter().collect()),
+            (x, p) => (vec![x], vec![p]),
+        };
+        let mut env2 = env.clone();
+        let mut ls = vec![];
+        let mut ps = vec![];
+        for (x, p) in scruts.iter().zip(&pats) {
+            let (s, st) = self.expr(x, env)?;
+            ls.push(s.s);
+            ps.push(self.pattern(p, &st, &mut env2, sp)?);
+        }
+        self.check_effect_order(&l.expr)?;
+        self.last_borrow = None;
+        let pre = self.take_pre();
+        let nb = Self::binds_in(&pre);
+        if nb > 0 && mode != Mode::Tail {
+            return self.unsupported(sp, "early exit to `None` inside a nested statement block:");
+        }
+        let else_stmts = match (else_stmts, else_if) {
+            (Some(s), _) => s,
+            (None, Some(ei)) => vec![Stmt::Expr(ei.clone(), None)],
+            _ => vec![],
+        };
+        let mut bound = vec![];
+        for p in &pats {
+            pat_names(p, &mut bound);
+        }
+        self.match_depth += 1 + nb;
+        let a = self.branch(&i.then_branch.stmts, &env2, mode, rest, i.then_branch.span(), &bound);
+        let b = self.branch(&else_stmts, env, mode, rest, e.span(), &[]);
+        self.match_depth -= 1 + nb;
+        let (a, b) = (a?, b?);
+        let mut lines = vec![format!("match {} with  -- L{}: if let …", ls.join(", "), line_of(e.span()))];
+        lines.push(format!("| {} =>", ps.join(", ")));
+        lines.extend(indent(a));
+        lines.push(format!("| {} =>  -- else", vec!["_"; ps.len()].join(", ")));
+        lines.extend(indent(b));
+        self.match_depth += nb;
+        let lines = self.paren_match(lines);
+        self.match_depth -= nb;
+        Ok(self.wrap(pre, lines))
     }
 
     #[allow(clippy::too_many_arguments)]
@@ -1572,6 +1722,7 @@ impl<'a> Tr<'a> {
         self.no_hoist = 0;
         self.state = vec![];
         self.mut_params.clear();
+        self.mut_idx.clear();
         self.loop_ctx = None;
         self.deferred_tys.clear();
         self.idents.clear();
@@ -1620,6 +1771,7 @@ impl<'a> Tr<'a> {
                             binders.push(format!("({} : {})", lean_ident(&name), t.lean()));
                             params.push(t.clone());
                             mut_param_tys.push(t.lean());
+                            self.mut_idx.push(params.len() - 1);
                             note!(self, refs, format!("`{}: {}` (fn {}): state, threaded through like `self` of a `&mut self` method (the function returns its new value)", name, self.src_text(pt.ty.span()), self.fn_name));
                             self.mut_params.push(name.clone());
                             env.push(var(name, t));
@@ -1712,6 +1864,7 @@ impl<'a> Tr<'a> {
             ret: self.ret.clone(),
             has_panic: self.has_panic,
             mut_params: self.mut_params.len(),
+            mut_idx: self.mut_idx.clone(),
             ret_borrow: self.ret_borrow.clone(),
             lean: lean_name,
             deceq: self.deceq.clone(),
